@@ -5,11 +5,14 @@ package server
 
 import (
 	"fmt"
+	"os"
+	"path/filepath"
 	"reflect"
 	"strings"
 	"testing"
 
 	"rcproxy/core"
+	"rcproxy/core/authip"
 	"rcproxy/core/codec"
 )
 
@@ -233,5 +236,42 @@ func TestVerifSearch_OnSClosed(t *testing.T) {
 	ls.OnSClosed(s, fmt.Errorf("connection reset by peer"))
 	if !f.Done && !m.Done && o.open && len(m.RspBody) == 0 {
 		verifWitness(t, "backend connection lost with GET k written and its reply outstanding: OnSClosed only logs; the request is neither completed with an error nor is its client closed, so (without a request timeout) the client waits forever")
+	}
+}
+
+// ---- OnCOpened: admission by source address ----
+type verifClientAddr struct {
+	core.CConn
+	remote string
+}
+
+func (c *verifClientAddr) Fd() int            { return 7 }
+func (c *verifClientAddr) RemoteAddr() string { return c.remote }
+func (c *verifClientAddr) LocalAddr() string  { return "proxy:1" }
+
+func TestVerifSearch_OnCOpened(t *testing.T) {
+	dir := t.TempDir()
+	if err := os.WriteFile(filepath.Join(dir, "auth.yml"), []byte("enable: true\nip_white_list:\n  - \"127.0.0.1\"\n  - \"::1\"\n  - \"fe80::1\"\n"), 0o644); err != nil {
+		t.Fatal(err)
+	}
+	if err := authip.LoopIPWhiteList(dir, "auth.yml"); err != nil {
+		t.Fatal(err)
+	}
+	ls := &listenServer{Options: &Options{}}
+	for _, c := range []struct {
+		remote string
+		listed bool
+	}{
+		{"127.0.0.1:5000", true}, {"127.0.0.2:5000", false}, {"[::1]:5000", true}, {"[fe80::1]:5000", true}, {"[fe80::2]:5000", false},
+	} {
+		_, action := ls.OnCOpened(&verifClientAddr{remote: c.remote})
+		if c.listed && action == core.Close {
+			verifWitness(t, "whitelist enabled with 127.0.0.1, ::1, fe80::1: a connection from %s (listed) is closed at admission", c.remote)
+			return
+		}
+		if !c.listed && action != core.Close {
+			verifWitness(t, "whitelist enabled: a connection from %s (not listed) is admitted", c.remote)
+			return
+		}
 	}
 }
